@@ -4,6 +4,7 @@ package main
 
 import (
 	"fmt"
+	"os"
 	"sort"
 )
 
@@ -21,6 +22,11 @@ func runMode(mode, prop, tier string, seed uint64, scratch, replays string) *Out
 		return &Output{Property: prop}
 	case "integ":
 		return decideInteg(prop, tier, seed, scratch, replays)
+	case "hostile":
+		return decideHostile(prop, tier, seed, scratch, replays)
+	case "c10child":
+		c10child()
+		os.Exit(0)
 	}
 	return &Output{Property: prop, Tier: tier, Seed: seed, Violations: 1, Messages: []string{"unknown mode " + mode}}
 }
